@@ -37,6 +37,11 @@ def cases(tier, rng):
         strs.append(("[" * d + "a" + "]" * d, "deep")); strs.append(("f(" * d + "a" + ")" * d, "deep"))
         strs.append(("not(" * d + "a" + ")" * d, "deep")); strs.append(("[" * d, "deep")); strs.append(("f(" * d, "deep"))
     strs.append(("a" * 1001, "long")); strs.append(("f(" + "a, " * 400 + "a)", "long"))
+    # around the 1000-character limit of complex terms, counted in characters and (non-ASCII) in bytes
+    for L in (997, 998, 999, 1000, 1001, 1002):
+        strs.append(("f(" + "a" * (L - 3) + ")", "long")); strs.append(("f(" + "\u00e9" * ((L - 3) // 2) + ")", "long"))
+        strs.append(("f(" + "\u00e9" * (L - 3) + ")", "long")); strs.append(("p :- f(" + "a" * (L - 3) + ")", "long"))
+        strs.append(("[" + "a, " * ((L - 3) // 3) + "a]", "long"))
     seen = set()
     for s, tag in strs:
         if s in seen: continue
